@@ -218,9 +218,10 @@ def run_check(check, tier, seed, replay=None, max_cases=None):
     def process_batch(cases, src):
         if not cases:
             return
-        if check.use_pool and tier == "thorough" and len(cases) > 8:
-            with mp.Pool(check.workers_thorough) as pool:
-                outs = pool.map(_pool_impl, cases, chunksize=max(1, len(cases) // (check.workers_thorough * 8)))
+        nw = int(os.environ.get("VERIF_WORKERS", check.workers_thorough))
+        if check.use_pool and tier == "thorough" and len(cases) > 8 and nw > 1:
+            with mp.Pool(nw) as pool:
+                outs = pool.map(_pool_impl, cases, chunksize=max(1, len(cases) // (nw * 8)))
         else:
             outs = [check.safe_impl(c) for c in cases]
         all_lines, spans = [], []
